@@ -339,6 +339,9 @@ def delivered (w : WSt) (sid : Nat) (what : String) : List Viol :=
     if what == "head" then s.rxHeadBad.map fun r => "C13 delivered-malformed-head-" ++ r
     else if what == "trailers" then s.rxTrailersBad.map fun r => "C13 delivered-malformed-trailers-" ++ r
     else if what == "end" then
+      -- C01: a body ends cleanly for the application only if the peer ended it (END_STREAM) — a reset, whatever its
+      -- code, is not an end
+      (if ¬ s.rxEnd then ["C01 body-ended-cleanly-without-END_STREAM-from-the-peer"] else []) ++
       match s.rxCl with
       | some (some n) =>
         if s.noBody then (if s.rxBody ≠ 0 then ["C13 clean-end-of-a-bodyless-response-that-carried-data"] else [])
